@@ -448,7 +448,7 @@ static void rays_for(const ACfg &cfg, int per, int field, bool thorough, long se
     for (long i = 0; i < cfg.n[d]; ++i) {
       L[d].push_back(cfg.A[d] + side * i);
       L[d].push_back(cfg.A[d] + side * i + 0.5 * side);
-      if (thorough)
+      if (thorough && (long)cfg.n[0] * cfg.n[1] * cfg.n[2] <= 16)
         L[d].push_back(cfg.A[d] + side * i + 0.3125 * side);
     }
   }
@@ -649,7 +649,7 @@ int main(int argc, char **argv) {
     const ACfg *c = find_cfg(cfgs, n);
     for (int per = 0; per < 8; ++per)
       for (int field = 0; field < 3; ++field) {
-        if (!th && field == 0)
+        if (field == 0 && (!th || (per != 0 && per != 7)))
           continue;
         auto it = hang.find({c, per});
         tasks.push_back({c, per, field, it == hang.end() ? 0 : it->second});
